@@ -6,7 +6,7 @@ from .common import Exc
 from .url_grammar import gen_su, spelling_variants, call, gen_url, wrap_redirect
 from .norm_common import DEFAULTS
 
-THEOREMS = ['C04_inference_is_a_prestep', 'C04_query_order_irrelevant', 'C04_surrounding_junk_core', 'C04_surrounding_junk'] + ["(main statement: harness deciders on the implementation + model correspondence — partial)"]
+THEOREMS = ['C04_inference_is_a_prestep_full', 'C04_inference_is_a_prestep', 'C04_query_order_irrelevant', 'C04_surrounding_junk_core', 'C04_surrounding_junk'] + ["(main statement: harness deciders on the implementation + model correspondence — partial)"]
 TRACKING = ["utm_source=x", "utm_campaign=a%20b", "fbclid=IwAR", "gclid=1", "ref=twitter", "ref=fb", "m=1", "s=09", "amp=1", "amp_js_v=0.1", "outputType=amp", "UTM_MEDIUM=z",
             "__twitter_impression=true", "sessionid=4", "mode=amp", "spref=tw", "_ga=2.1", "at_medium=c", "xtor=RSS-1", "phpsessionid=1", "JSESSIONID=2", "usqp=mq331AQ", "mc_cid=7"]
 
@@ -29,6 +29,11 @@ def irrelevant_variants(su, rng):
         for f in ("top", "section-2", "", "a=b"):
             v = su.copy(); v.fragment = f; out.append(("non-routing fragment", v.render()))
     items = su.query.split("&") if su.query else []
+    for dom, its in (("youtube.com", ["si=abc", "t=42s", "ab_channel=X", "cbrd=1", "ucbcb=1"]), ("facebook.com", ["_rdr", "_rdc=1"])):
+        if su.host.lower() == dom or su.host.lower().endswith("." + dom):
+            for t in its:
+                pos = rng.randrange(len(items) + 1)
+                v = su.copy(); v.query = "&".join(items[:pos] + [t] + items[pos:]); out.append(("per-domain tracking item %s at %d" % (t, pos), v.render()))
     for _ in range(3):
         t = rng.choice(TRACKING)
         pos = rng.randrange(len(items) + 1)
@@ -105,12 +110,14 @@ def run(res, tier, rng):
 
     nontriv = set()
     n = 1200 if tier == "quick" else 20000
-    hosts = ["x.com", "lemonde.fr", "café.fr", "a.b.co.uk", "forum-m.x.com", "example.org"]
+    hosts = ["x.com", "lemonde.fr", "café.fr", "a.b.co.uk", "forum-m.x.com", "example.org", "music.youtube.com", "gaming.youtube.com", "fr-fr.facebook.com"]
     for i in range(n):
         su = gen_su(rng, hosts=hosts)
         # the documented-irrelevant fragment / index must not already be there
         base = su.render()
         for kw in (dict(), dict(quoted=True), dict(platform_aware=True)):
+            if kw.get("platform_aware") and su.host.lower().endswith(("youtube.com", "facebook.com")):
+                continue        # the platform-specific rewriting of platform urls is C19's subject
             nb = call(normalize_url, base, **kw)
             if isinstance(nb, Exc):
                 res.violation("property", "normalize_url raised %s" % nb, input=dict(url=base, options=kw))
